@@ -375,7 +375,7 @@ def gen_tonnx_cfg(rng, i):
   if embed == 'jit':
     feats = [f for f in feats if f != 'bn']  # BatchNorm's division by a batch-of-2 std is ill-conditioned under XLA refusion
   cols = sorted({STATE_COLS[f] for f in feats if f in STATE_COLS})
-  rngcfg = rng.choice(['default', 'params', 'both'])
+  rngcfg = rng.choice(['default', 'params', 'both', 'default_only'])
   lazy = rng.choice(['method', 'function']) if embed != 'parent' else 'function'
   steps = []
   n_steps = rng.randint(1, 4) if embed != 'jit' else rng.randint(1, 2)
@@ -417,6 +417,9 @@ def mutable_arg(spec):
 def make_rngs(rngcfg, seed, streams):
   from flax import nnx
   kw = {s: seed + 1 + j for j, s in enumerate(streams)}
+  if rngcfg == 'default_only':
+    # nnx.Rngs(0), the usual NNX spelling: every stream the Linen module asks for comes from the one default stream
+    return nnx.Rngs(seed)
   if rngcfg == 'default':
     return nnx.Rngs(seed, **kw)
   if rngcfg == 'params':
@@ -484,6 +487,8 @@ def run_tonnx(ctx, m, x, streams, cfg, takes_train, tuple_leaves=False):
       override = make_rngs('params', step['rngs_override'], streams)  # rngs= given at the call replaces the wrapper's own
     src = override if override is not None else w.rngs
     er = expected_keys(src)
+    if 'params' not in er and 'default' in er:
+      er['params'] = er.pop('default')  # as at init: NNX's fallback stream feeds Linen's fallback stream
     kw = {}
     if override is not None:
       kw['rngs'] = override
@@ -558,6 +563,8 @@ def run_tonnx(ctx, m, x, streams, cfg, takes_train, tuple_leaves=False):
     check_types(ctx, w, fa, 'after_call')
     # rngs advanced: the next keys differ from the ones just used (every stream was drawn once)
     er2 = expected_keys(src)
+    if 'params' not in er2 and 'default' in er2:
+      er2['params'] = er2.pop('default')
     ctx.check(all(not same_bits(er[k], er2[k]) for k in er), 'tonnx.rng_not_advanced', None)
 
 
@@ -1344,6 +1351,84 @@ def run_tolinen_reused(ctx, i, rng):
     ctx.check(close(y1, h), 'tolinen.reused:apply_output', lambda: dict(case=desc, got=np.asarray(y1).tolist(), want=np.asarray(h).tolist()))
 
 
+_HOOKED = {}
+
+
+def hooked_nnx_classes():
+  if _HOOKED:
+    return _HOOKED
+  import jax.numpy as jnp
+  from flax import nnx
+
+  class CreateX2(nnx.Param):
+    def on_create_value(self, value):
+      return value * 2
+
+  class ReadPlus1(nnx.Param):
+    def on_get_value(self, value):
+      return value + 1
+
+  class SetClip(nnx.BatchStat):
+    def on_set_value(self, value):
+      return jnp.minimum(value, 2.0)
+
+  class HM(nnx.Module):
+    def __init__(self, kind, d, rngs):
+      self.kind = kind
+      w0 = jnp.arange(1.0, d + 1.0)
+      if kind == 'create':
+        self.w = CreateX2(w0)
+      elif kind == 'read':
+        self.w = ReadPlus1(w0)
+      elif kind == 'create_meta':
+        self.w = nnx.Param(w0, on_create_value_hooks=[lambda var, v: v * 3])   # hooks passed as metadata
+      else:
+        self.w = nnx.Param(w0)
+      self.n = SetClip(jnp.zeros(())) if kind == 'set' else nnx.BatchStat(jnp.zeros(()))
+
+    def __call__(self, x):
+      self.n.value = self.n.value + 1.0
+      return x * self.w.value + self.n.value
+
+  _HOOKED.update(HM=HM)
+  return _HOOKED
+
+
+def run_tolinen_hooked(ctx, i, rng):
+  """ToLinen around an NNX module whose Variables carry value hooks (on_create_value / on_get_value / on_set_value as subclass
+  methods or as metadata): init, apply and repeated mutable applies return what the NNX module itself returns with the same state
+  - a creation hook runs when the Variable is created, not again every time the Linen wrapper rebuilds the module."""
+  import jax
+  import jax.numpy as jnp
+  from flax import nnx
+  from flax.nnx import bridge
+  HM = hooked_nnx_classes()['HM']
+  kind = ['create', 'read', 'set', 'create_meta', 'plain'][i % 5]
+  n_calls = 1 + (i // 5) % 3
+  d = 2 + (i // 15) % 2
+  desc = dict(hook=kind, calls=n_calls, d=d)
+  with ctx.case('tolinen.hooked', i, desc, nontrivial=kind != 'plain'):
+    x = jnp.asarray(np.random.default_rng(i).uniform(-1, 1, (2, d)).astype(np.float32))
+    lin = bridge.to_linen(HM, kind, d)
+    y0, V = lin.init_with_output(jax.random.key(i), x)
+    ctx.op('ToLinen(hooked Variable).init')
+    ref = HM(kind, d, nnx.Rngs(0))
+    r0 = ref(x)
+    ctx.check(close(y0, r0), 'tolinen.hooked:init_output', lambda: dict(case=desc, got=np.asarray(y0).tolist(), want=np.asarray(r0).tolist()))
+    # apply on the variables init returned; the state the wrapper exposes at init is the state BEFORE the initial call
+    ref = HM(kind, d, nnx.Rngs(0))
+    for t in range(n_calls):
+      # (a Variable subclass lives in a collection named after that subclass: everything but the graph definition is mutable)
+      y, upd = lin.apply(V, x, mutable=[c for c in V if c != 'nnx'])
+      ctx.op('ToLinen(hooked Variable).apply')
+      r = ref(x)
+      if not ctx.check(close(y, r), 'tolinen.hooked:apply_output', lambda: dict(case=desc, call=t, got=np.asarray(y).tolist(), want=np.asarray(r).tolist())):
+        return
+      V = {**V, **upd}
+    got_n = leaf_value([t['n'] for c, t in V.items() if c != 'nnx' and 'n' in t][0])
+    ctx.check(close(got_n, ref.n.value), 'tolinen.hooked:state_after', lambda: dict(case=desc, got=float(got_n), want=float(ref.n.value)))
+
+
 def run_tonnx_custom_box(ctx, i, rng):
   """A Linen variable boxed in a user-defined AxisMetadata class (public ABC; no from_nnx_metadata): the wrapper keeps the box's own
   fields as Variable metadata and every call returns what Linen apply returns."""
@@ -1469,6 +1554,8 @@ def run(ctx):
     run_tonnx_names(ctx, i, ctx.rng('tonnx.names', i))
   for i in ctx.indices(20 if ctx.tier == 'quick' else 80, 'tolinen.reused'):
     run_tolinen_reused(ctx, i, ctx.rng('tolinen.reused', i))
+  for i in ctx.indices(30 if ctx.tier == 'quick' else 90, 'tolinen.hooked'):
+    run_tolinen_hooked(ctx, i, ctx.rng('tolinen.hooked', i))
   for i in ctx.indices(24 if ctx.tier == 'quick' else 96, 'tonnx.in_parent'):
     run_tonnx_in_parent(ctx, i, ctx.rng('tonnx.in_parent', i))
   q = ctx.tier == 'quick'
